@@ -86,7 +86,12 @@ pub fn enumerate(p: &Plan, f: &mut dyn FnMut(u64, &'static str, &[u8])) -> u64 {
     let b0 = base;
     base += spaces::space_b(p.b_tokens, &mut |i, c| f(b0 + i, "B", c));
     let s0 = base;
-    base += spaces::space_s(p.s_k, 0, &mut |i, c| f(s0 + i, "S", c));
+    base += spaces::space_s(p.s_k.min(2), 0, &mut |i, c| f(s0 + i, "S", c));
+    if p.s_k >= 3 {
+        // three-statement bodies: the largest sub-space; run at the extreme widths with a shallower input tree
+        let s3 = base;
+        base += spaces::space_s_range(3, p.s_k, 0, &mut |i, c| f(s3 + i, "S3", c));
+    }
     if p.s_inner > 0 {
         let s1 = base;
         base += spaces::space_s(2, p.s_inner, &mut |i, c| f(s1 + i, "S2", c));
@@ -142,9 +147,22 @@ pub fn judge_program(ctx: &mut WorkerCtx, p: &Plan, prop: &'static str, backend:
     let code = code.to_vec();
     {
         ctx.count("programs", 1);
-        let widths = if tag == "A" && code.len() <= p.a_len_allwidths { &all_widths } else { &p.widths };
-        for &w in widths {
-            let depth = if tag.starts_with('S') { p.s_depth } else { p.depth };
+        let extreme = [Width::W8, Width::W64];
+        let widths: &[Width] = if tag == "S3" {
+            &extreme
+        } else if tag == "A" && code.len() <= p.a_len_allwidths {
+            &all_widths
+        } else {
+            &p.widths
+        };
+        for &w in widths.iter() {
+            let depth = if tag == "S3" {
+                1
+            } else if tag.starts_with('S') {
+                p.s_depth
+            } else {
+                p.depth
+            };
             let runs = if tag == "W" {
                 // wide assignments need all cells distinct and non-zero: fixed scripts, no choice tree
                 spaces::W_SCRIPTS
